@@ -1,7 +1,8 @@
 """C48 — bag operations equal their Python reference.
 
-Model:    lean/DaskModel/Model/BagOps.lean (accumulate, take, repartition, fold/foldby/topk/frequencies/distinct/
-          sum/count/max as instances of Bag.reduction, product, zip), Model/BagReduce.lean (the reduction tree),
+Model:    lean/DaskModel/Model/BagOps.lean (accumulate, take, repartition incl. the binary64 cut points of split() and
+          repartition(partition_size), from_sequence, fold/foldby (three variants)/topk/frequencies/distinct/sum/count/max/
+          mean/var as instances of Bag.reduction, product, zip), Model/BagReduce.lean (the reduction tree),
           Model/BagShuffle.lean (groupby_tasks staged routing, groupby_disk)
 Theorems: lean/DaskModel/Props/C48.lean
 Tie:      function level: every modelled operation on generated partitionings (empty partitions, split_every,
@@ -24,11 +25,13 @@ READY = True
 DRIVER = "dm_bag"
 LEAN_MODULES = ["DaskModel.Props.C48"]
 CASE_TIMEOUT_S = 60
-TECHNIQUE = "Lean 4 proof (invariant principle for the reduction tree, digit arithmetic of the staged shuffle, scan/partition lemmas) + differential correspondence"
+TECHNIQUE = "Lean 4 proof (invariant principle for the reduction tree, digit arithmetic of the staged shuffle, scan/partition lemmas, exact binary64 rounding for split) + differential correspondence"
 ASSUMPTIONS = [
-    "functions passed to the bag are pure; binop/combine/initial of fold form a homomorphism (stated as hypothesis of bag_fold_eq)",
-    "groupby_tasks: k^stages >= npartitions for the (stages, k) the code computes with math.log / ** (checked by the harness for every npartitions <= 2000, max_branch <= 32)",
+    "functions passed to the bag are pure and consume a partition once; binop/combine/initial of fold / foldby form a homomorphism (stated as hypothesis of bag_fold_eq, foldby_eq, foldby_noci_eq)",
+    "groupby_tasks: k^stages >= npartitions for the (stages, k) the REAL function computes with math.log / ** (recorded from the function itself, not from a copy of the formula; every npartitions < 400 quick / <= 2000 thorough, max_branch in {2,3,..,32})",
     "tokenize-based hash of a key is a function of the key",
+    "IEEE-754 binary64 round-to-nearest-even for int/int true division and float*int (the cut points of split(); modelled exactly, scale 2^-1074)",
+    "sizeof() of a partition and dask.utils.iter_chunks are inputs of the repartition(partition_size) model (recorded from the real call)",
 ]
 TRUSTED = ["toolz (groupby, reduceby, unique, topk, frequencies, partition_all, join) as reference semantics",
            "partd files of the disk shuffle"]
@@ -511,8 +514,21 @@ def case_groupby_api(ctx, inp):
     kw = {"max_branch": inp.get("mb")} if method == "tasks" else {"npartitions": inp.get("nout")}
     if method == "disk" and inp.get("blocksize"):
         kw["blocksize"] = inp["blocksize"]       # elements per on-disk block: forces several blocks per partition
-    g = b.groupby(lambda x: x % km, shuffle=method, **kw)
-    got = [[[k, list(v)] for k, v in p] for p in parts_of(g)]
+    import dask.bag.core as bc
+    ran, o_partition = [], bc.partition
+
+    def rec_partition(grouper, sequence, npartitions, p, nelements=2 ** 20):
+        sequence = list(sequence)
+        ran.append(sequence)
+        return o_partition(grouper, sequence, npartitions, p, nelements)
+
+    bc.partition = rec_partition
+    try:
+        g = b.groupby(lambda x: x % km, shuffle=method, **kw)
+        got = [[[k, list(v)] for k, v in p] for p in parts_of(g)]
+    finally:
+        bc.partition = o_partition
+    inp = dict(inp, _ran=ran)
     flat = [x for p in parts for x in p]
     want = collections.defaultdict(list)
     for x in flat:
@@ -529,6 +545,17 @@ def case_groupby_api(ctx, inp):
     if method == "disk":
         nout = inp.get("nout") or len(parts)
         model = ctx.lean(Sym("groupbydisk"), nout, km, hs, parts)
+        # the shuffle as it runs: blocks of `blocksize` elements regrouped and appended to the partd files, in the
+        # order in which the scheduler ran the `partition` tasks (recorded; bags promise no order between partitions)
+        ran = inp["_ran"]
+        if sorted(map(tuple, ran)) != sorted(map(tuple, parts)):
+            ctx.disagree("groupby_disk: `partition` did not run exactly once per input partition", parts, ran)
+        blocks = ctx.lean(Sym("groupbydiskblocks"), nout, inp.get("blocksize") or 2 ** 20, km, hs, ran)
+        ctx.eq("groupby(disk) == block model on the partitions in execution order (keys and elements in file order)", blocks, got)
+        if ran != parts:
+            ctx.branch("groupby-disk:partitions-ran-out-of-order")
+        if inp.get("blocksize") and any(len(p) > inp["blocksize"] for p in parts):
+            ctx.branch("groupby-disk:several-blocks-per-partition")
     else:
         stages, k = stages_k_of_graph(g)
         model = ctx.lean(Sym("groupbytasks"), k, stages, km, hs, parts)
@@ -684,7 +711,12 @@ def case_api(ctx, inp):
                 want[key(x)].append(x)
             methods = [("tasks", {"max_branch": inp.get("mb")})]
             if inp.get("disk"):
-                methods.append(("disk", {"npartitions": inp.get("nout")}))
+                # the default blocksize (2**20 elements per block) costs seconds per partition inside
+                # toolz.partition_all; a small one exercises several blocks per partition instead
+                kwd = {"npartitions": inp.get("nout")}
+                if inp.get("disk") != "default-blocksize":
+                    kwd["blocksize"] = 3
+                methods.append(("disk", kwd))
             for method, kw in methods:
                 got = {k: sorted(map(repr, v)) for k, v in b.groupby(key, shuffle=method, **kw)}
                 chk(f"groupby({method})", got, {k: sorted(map(repr, v)) for k, v in want.items()})
@@ -693,6 +725,19 @@ def case_api(ctx, inp):
             got = sorted(map(repr, b.join(other, key)))
             want = sorted(repr((y, x)) for x in seq for y in other if key(x) == key(y))
             chk("join", got, want)
+            # `other` as a single-partition Bag (also a lazily mapped one) and as a Delayed
+            import dask
+            ob = mk_bag([other])
+            chk("join(other = single-partition Bag)", sorted(map(repr, b.join(ob, key))), want)
+            chk("join(other = lazily mapped single-partition Bag)",
+                sorted(map(repr, b.join(ob.map(lambda y: y), key))), want)
+            chk("join(other = Delayed)", sorted(map(repr, b.join(dask.delayed(tuple(other)), key))), want)
+            chk("join(on_self, on_other)", sorted(map(repr, b.join(other, key, lambda y: key(y)))), want)
+            try:
+                b.join(mk_bag([other, other]), key)
+                ctx.fail("join with a multi-partition Bag did not raise NotImplementedError")
+            except NotImplementedError:
+                pass
         elif op == "accumulate":
             vals = [num(x) for x in seq]
             chk("accumulate", list(b.map(num).accumulate(operator.add)), list(itertools.accumulate(vals)))
@@ -960,7 +1005,10 @@ def generate(ctx):
             inp["kw"] = rng.choice([{}, {"npartitions": rng.randint(1, 6)}, {"partition_size": rng.randint(1, 5)}])
         if op == "groupby":
             ndisk[0] += 1
-            inp["disk"] = ndisk[0] <= (2 if not th else 40)     # the disk shuffle fsyncs per partition: seconds per case
+            inp["disk"] = ndisk[0] <= (4 if not th else 60)     # the disk shuffle fsyncs per partition
+            if ndisk[0] == 1:        # once per run with the default blocksize, on a bag of at most two partitions
+                inp["disk"] = "default-blocksize"
+                inp["sizes"] = sizes[:2]
         yield "api", inp
     for i in range(ctx.n(3, 60)):
         yield "api", {"op": "to_dataframe", "kind": ["dict", "tuple", "int"][i % 3],
@@ -975,7 +1023,7 @@ def generate(ctx):
         yield "groupby_api", {"parts": parts, "km": rng.randint(4, 7) if disk else rng.randint(1, 6),
                               "method": "disk" if disk else "tasks",
                               "mb": rng.choice([None, 2, 3]), "nout": rng.choice([1, 2]) if disk else rng.choice([None, 1, 3]),
-                              "blocksize": rng.choice([None, 2, 3]) if disk else None}
+                              "blocksize": rng.choice([2, 3, 50] + ([None] if th and rng.random() < 0.1 else [])) if disk else None}
     # function level
     for _ in range(ctx.n(120, 1500)):
         big = rng.random() < 0.12
@@ -1063,12 +1111,22 @@ def generate(ctx):
 
 
 LEVEL_TEXT = (
-    "Lean theorems (60+): invariant principle for Bag.reduction (any split_every >= 2, any partitioning incl. empty partitions) with "
-    "fold (with and without initial), sum, count, max, min, any, all, topk, frequencies, distinct as instances; foldby (dicts as association lists); staged task shuffle: every "
-    "element ends in partition hash mod k^stages, each stage is a permutation (multiset preserved), each key in exactly one partition "
-    "with exactly its elements; disk shuffle placement; accumulate = itertools.accumulate for every binop; take; repartition keeps the "
-    "sequence and yields exactly the requested number of partitions (for any cut points); product (multiset), zip, concat, join, "
-    "map/filter/remove/flatten/pluck/starmap. Validated only: mean/var/std, from_sequence sizes, optimize/lazify, partd.")
+    "Lean theorems (80+, all for every partitioning incl. empty partitions): invariant principle for Bag.reduction (any split_every >= 2, "
+    "and split_every=False: bag_reduction_eq_guard) with fold (with / without initial), sum, count, max, min, any, all, topk, frequencies, "
+    "distinct as instances; the exact integer moments behind mean / var / std (bag_mean_eq, bag_var_eq); foldby with combine_initial "
+    "(foldby_eq), without it (foldby_noci_eq: merge_with(reduce(combine)), no unit law needed) and without any initial (foldby_noinit_eq); "
+    "staged task shuffle: every element ends in partition hash mod k^stages, each stage is a permutation, every key in exactly one "
+    "partition, once (groupby_keys_nodup), with EXACTLY its elements as a multiset (groupby_group_perm); disk shuffle placement and "
+    "completeness; accumulate = itertools.accumulate for every binop; take; repartition(npartitions) keeps the sequence and yields exactly "
+    "the requested number of partitions — fewer: integer boundaries, more: with the REAL binary64 cut points int(len/k*i) of split() "
+    "modelled exactly (split_den, repartition_more_ieee); repartition(partition_size) for any memory usages (repartition_size_den); "
+    "from_sequence (sizes, count, npartitions bound); product (multiset), zip, concat, join, map/filter/remove/flatten/pluck/starmap. "
+    "Validated only (API-level differential): the final float formula of mean/var/std, to_dataframe, to_delayed/from_delayed, "
+    "optimize/lazify (multi-consumer and joint-compute cases), partd files of the disk shuffle, iter_chunks of repartition_size.")
 LEVEL_NOTE = (
-    "Trusted: Lean kernel + standard axioms; the correspondence harness; toolz kernels on one partition; partd; tokenize as the "
-    "hash of groupby keys; bag optimize/lazify and map/filter/pluck glue are covered by the API-level differential check only.")
+    "Trusted: Lean kernel + standard axioms; the correspondence harness; toolz kernels on one partition (groupby, reduceby, merge_with, "
+    "unique, topk, partition_all) as reference semantics; partd; tokenize as the hash of groupby keys; CPython binary64 arithmetic "
+    "(int/int division, float*int: the model's round53 is diffed against CPython on every run); the hypothesis npartitions <= k^stages of "
+    "the shuffle theorems is checked on the values the REAL groupby_tasks computes (function prefix and graph), for every npartitions "
+    "< 400 (quick) / <= 2000 (thorough) x max_branch; bag optimize/lazify and map/filter/pluck glue are covered by the API-level "
+    "differential check only.")
